@@ -273,6 +273,14 @@ def _gen_spec(rng: Rng, want_mc, min_ports, profile, mc_triggers=False) -> dict:
                          force_ret={'kind': 'void'})
         itf['events'].insert(rng.below(len(itf['events']) + 1), claim)
         itf['events'].insert(rng.below(len(itf['events']) + 1), release)
+        if rng.chance(40):
+            # look-alikes: events whose names merely START with the configured names, declared before them, with
+            # compatible replies (an enum-replying one for claim, a void one for release)
+            for base_name, ret in ((claim_name, {'kind': 'enum', 'fqn': enum['ns'] + [enum['name']]}), (release_name, {'kind': 'void'})):
+                alike = base_name + rng.choice(['Allowed', '2', '_x', 'Now'])
+                if alike not in {e['name'] for e in itf['events']} and alike not in CPP_KEYWORDS and alike not in RESERVED:
+                    evn.reserve('ev', alike)
+                    itf['events'].insert(0, _event(rng, evn, itf, externs, enums, subints, force_dir='in', force_name=alike, force_ret=dict(ret)))
         if mc_triggers and not any(e['dir'] == 'in' and e['name'] not in (claim_name, release_name) for e in itf['events']):
             itf['events'].insert(rng.below(len(itf['events']) + 1),
                                  _event(rng, evn, itf, externs, enums, subints, force_dir='in'))
